@@ -58,7 +58,7 @@ impl Check for C04 {
     fn rule() -> String {
         "Writer programs exercising every setter of E57Writer / PointCloudWriter / ImageWriter with independent presence bits (6 in 8), strings over \
          XML 1.0 characters minus CR built from a token alphabet ('<', '&', ']]>', '<![CDATA[', entities, whitespace-only, empty, BMP edges, astral, \
-         combining), floats from a special pool + random bit patterns, i64/u32 extremes, extension URIs with XML-significant characters, all four \
+         combining), floats from a special pool + random bit patterns, i64/u32 extremes, extension URIs with XML-significant characters, 1 program in 300 with 150 .. 600 registered extensions (the writer may refuse to register more than it can read back), all four \
          image representations with/without mask, complete limit overrides, identity or editing XML transformer. Oracle: every getter of the reader \
          equals the model field by field (floats bitwise, NaN~NaN), xml() and raw_xml() equal the transformer output byte for byte. \
          Non-trivial: case contains an XML-significant/empty/whitespace-only/astral string, a non-finite float, an integer extreme or an image with mask."
@@ -70,6 +70,13 @@ impl Check for C04 {
     fn gen(s: &mut Src, _t: Tier) -> Case {
         let o = GenOpts { density: 6, max_ops: 4, max_values: 200, fat_chance: (0, 1), ..GenOpts::default() };
         let mut p = prog::valid_program(s, &o);
+        if s.chance(1, 300) {
+            // hundreds of registered extensions (each one is a namespace declaration on the root element)
+            let n = *s.pick(&[150usize, 249, 250, 251, 254, 255, 256, 300, 600]);
+            for i in 0..n {
+                p.ops.insert(0, Op::Ext { prefix: format!("many{i}"), url: format!("urn:verif:many:{i}") });
+            }
+        }
         for op in &mut p.ops {
             match op {
                 Op::Ext { prefix, url } => {
@@ -119,7 +126,16 @@ impl Check for C04 {
             v.fail(format!("writer panicked in {}: {panic}", tr.current));
             return v;
         }
+        let n_ext = p.ops.iter().filter(|o| matches!(o, Op::Ext { .. })).count();
+        if n_ext > 200 {
+            v.nt("hundreds_of_extensions");
+        }
         if let Some((call, e)) = &tr.error {
+            if call == "register_extension" && n_ext > 200 {
+                // hundreds of namespace declarations: the writer may refuse to register more than it can read back
+                v.label("extension_count_refused");
+                return v;
+            }
             v.fail(format!("writer rejected a valid program: {call}: {e}"));
             return v;
         }
